@@ -235,6 +235,12 @@ func ruleGroupOrderFixed(c *Ctx, norm *ssa.Function) {
 				}
 			}
 		}
+		var orderedFrom *ssa.BasicBlock // decorate/sort/undecorate: the header of the write-back loop
+		if sortCall == nil {
+			if dc, keyFn, hdr, ok := decoratedSort(c.P, norm, alias); ok {
+				sortCall, less, orderedFrom = dc, keyFn, hdr
+			}
+		}
 		if sortCall == nil {
 			var what []string
 			for _, u := range uses {
@@ -258,6 +264,16 @@ func ruleGroupOrderFixed(c *Ctx, norm *ssa.Function) {
 				}
 				_, isPhi := u.at.(*ssa.Phi)
 				before = si < ui && !isPhi
+			}
+			if orderedFrom != nil {
+				// the group is in its final order once the write-back loop has run: the use lies behind that loop
+				inLoop := false
+				for _, pr := range orderedFrom.Preds {
+					if orderedFrom.Dominates(pr) && loopBody(orderedFrom, pr)[u.at.Block()] {
+						inLoop = true
+					}
+				}
+				before = orderedFrom.Dominates(u.at.Block()) && orderedFrom != u.at.Block() && !inLoop
 			}
 			if !before {
 				bad = "the sort at " + c.P.Pos(sortCall.Pos()) + " does not precede the " + u.what
@@ -330,6 +346,9 @@ func ruleGroupOrderFixed(c *Ctx, norm *ssa.Function) {
 					}
 				}
 			}
+		}
+		if orderedFrom != nil {
+			shapeOK = true // (rows[i].key < rows[j].key with key = less(element): checked by decoratedSort; `less` is the key function here)
 		}
 		if bad == "" && !shapeOK {
 			c.Undec("R20.7", key, c.P.Pos(sortCall.Pos()), "the comparator is not of the form key(g[i]) < key(g[j]) with one key function")
@@ -447,4 +466,202 @@ func reaches(from, to, stop *ssa.BasicBlock) bool {
 		return false
 	}
 	return rec(from)
+}
+
+// decoratedSort: the group is ordered by decorate / sort / undecorate - rows (key, element) are built from the elements of
+// the group with one key function applied to that very element, the rows are sorted by their key field, and the elements
+// are written back to the group position by position. This orders the group by the key function as a direct sort with
+// `key(g[i]) < key(g[j])` does. Returned: the sort call, the key function, and the header of the write-back loop (from
+// which on the group is in its final order).
+func decoratedSort(p *Program, norm *ssa.Function, alias map[ssa.Value]bool) (*ssa.Call, *ssa.Function, *ssa.BasicBlock, bool) {
+	rootOf := func(v ssa.Value) ssa.Value {
+		for i := 0; i < 3; i++ {
+			switch x := v.(type) {
+			case *ssa.MakeInterface:
+				v = x.X
+			case *ssa.ChangeType:
+				v = x.X
+			}
+		}
+		if ld, ok := v.(*ssa.UnOp); ok && ld.Op == token.MUL {
+			if a, isA := ld.X.(*ssa.Alloc); isA {
+				// the cell of a captured variable: what was stored into it
+				for _, r := range *a.Referrers() {
+					if st, ok := r.(*ssa.Store); ok && st.Addr == ssa.Value(a) {
+						return st.Val
+					}
+				}
+			}
+		}
+		return v
+	}
+	for _, b := range norm.Blocks {
+		for _, in := range b.Instrs {
+			call, ok := in.(*ssa.Call)
+			if !ok || len(call.Call.Args) < 2 {
+				continue
+			}
+			callee := call.Call.StaticCallee()
+			if callee == nil || callee.Object() == nil || callee.Object().Pkg() == nil {
+				continue
+			}
+			full := callee.Object().Pkg().Path() + "." + callee.Object().Name()
+			if full != "sort.Slice" && full != "sort.SliceStable" {
+				continue
+			}
+			rows, ok := rootOf(call.Call.Args[0]).(*ssa.MakeSlice)
+			if !ok {
+				continue
+			}
+			// one row per element of the group
+			if lc, isCall := rows.Len.(*ssa.Call); !isCall || len(lc.Call.Args) != 1 || !alias[lc.Call.Args[0]] {
+				continue
+			} else if bi, isB := lc.Call.Value.(*ssa.Builtin); !isB || bi.Name() != "len" {
+				continue
+			}
+			mc, ok := call.Call.Args[1].(*ssa.MakeClosure)
+			if !ok {
+				continue
+			}
+			less := mc.Fn.(*ssa.Function)
+			// the comparator: rows[i].key < rows[j].key
+			keyField := -1
+			if len(less.Blocks) == 1 && len(less.Params) == 2 {
+				if ret, ok := less.Blocks[0].Instrs[len(less.Blocks[0].Instrs)-1].(*ssa.Return); ok && len(ret.Results) == 1 {
+					if bo, ok := ret.Results[0].(*ssa.BinOp); ok && (bo.Op == token.LSS || bo.Op == token.GTR) {
+						fieldOfRow := func(v ssa.Value) (int, ssa.Value) {
+							ld, ok := v.(*ssa.UnOp)
+							if !ok || ld.Op != token.MUL {
+								return -1, nil
+							}
+							fa, ok := ld.X.(*ssa.FieldAddr)
+							if !ok {
+								return -1, nil
+							}
+							ia, ok := fa.X.(*ssa.IndexAddr)
+							if !ok {
+								return -1, nil
+							}
+							return fa.Field, ia.Index
+						}
+						fx, ix := fieldOfRow(bo.X)
+						fy, iy := fieldOfRow(bo.Y)
+						if fx >= 0 && fx == fy && ix != iy && ix != nil && iy != nil {
+							if _, isP := ix.(*ssa.Parameter); isP {
+								if _, isP2 := iy.(*ssa.Parameter); isP2 {
+									keyField = fx
+								}
+							}
+						}
+					}
+				}
+			}
+			if keyField < 0 {
+				continue
+			}
+			isRows := func(v ssa.Value) bool { return rootOf(v) == ssa.Value(rows) }
+			// the rows: rows[i].key = keyFn(&g[i]) and rows[i].elem = g[i] with the same i
+			var keyFn *ssa.Function
+			elemField := -1
+			okBuild := true
+			for _, b2 := range norm.Blocks {
+				for _, in2 := range b2.Instrs {
+					st, ok := in2.(*ssa.Store)
+					if !ok {
+						continue
+					}
+					fa, ok := st.Addr.(*ssa.FieldAddr)
+					if !ok {
+						continue
+					}
+					ia, ok := fa.X.(*ssa.IndexAddr)
+					if !ok {
+						// a composite literal assembled in a local and stored into the row as a whole
+						if lit, isLit := fa.X.(*ssa.Alloc); isLit && lit.Referrers() != nil {
+							for _, r := range *lit.Referrers() {
+								if ld, isLd := r.(*ssa.UnOp); isLd && ld.Op == token.MUL && ld.Referrers() != nil {
+									for _, rr := range *ld.Referrers() {
+										if ws, isSt := rr.(*ssa.Store); isSt && ws.Val == ssa.Value(ld) {
+											if wia, isIA := ws.Addr.(*ssa.IndexAddr); isIA {
+												ia, ok = wia, true
+											}
+										}
+									}
+								}
+							}
+						}
+					}
+					if !ok || !isRows(ia.X) {
+						continue
+					}
+					if fa.Field == keyField {
+						kc, ok := st.Val.(*ssa.Call)
+						if !ok || kc.Call.StaticCallee() == nil || !p.OwnedFunc(kc.Call.StaticCallee()) || len(kc.Call.Args) != 1 {
+							okBuild = false
+							continue
+						}
+						arg := kc.Call.Args[0]
+						if ld, isLd := arg.(*ssa.UnOp); isLd && ld.Op == token.MUL {
+							arg = ld.X
+						}
+						ga, ok := arg.(*ssa.IndexAddr)
+						if !ok || !alias[ga.X] || ga.Index != ia.Index {
+							okBuild = false
+							continue
+						}
+						keyFn = kc.Call.StaticCallee()
+					} else {
+						ld, ok := st.Val.(*ssa.UnOp)
+						if !ok || ld.Op != token.MUL {
+							okBuild = false
+							continue
+						}
+						ga, ok := ld.X.(*ssa.IndexAddr)
+						if !ok || !alias[ga.X] || ga.Index != ia.Index {
+							okBuild = false
+							continue
+						}
+						elemField = fa.Field
+					}
+				}
+			}
+			if !okBuild || keyFn == nil || elemField < 0 {
+				continue
+			}
+			// the write-back: g[i] = rows[i].elem, in a loop after the sort
+			for _, b2 := range norm.Blocks {
+				for _, in2 := range b2.Instrs {
+					st, ok := in2.(*ssa.Store)
+					if !ok {
+						continue
+					}
+					ga, ok := st.Addr.(*ssa.IndexAddr)
+					if !ok || !alias[ga.X] {
+						continue
+					}
+					ld, ok := st.Val.(*ssa.UnOp)
+					if !ok || ld.Op != token.MUL {
+						continue
+					}
+					fa, ok := ld.X.(*ssa.FieldAddr)
+					if !ok || fa.Field != elemField {
+						continue
+					}
+					ia, ok := fa.X.(*ssa.IndexAddr)
+					if !ok || !isRows(ia.X) || ia.Index != ga.Index {
+						continue
+					}
+					hdr := loopHeaderOf(b2)
+					if hdr == nil || !(call.Block().Dominates(hdr) && call.Block() != hdr) {
+						continue
+					}
+					if _, bounded := loopKind(hdr); !bounded {
+						continue
+					}
+					return call, keyFn, hdr, true
+				}
+			}
+		}
+	}
+	return nil, nil, nil, false
 }
